@@ -149,6 +149,44 @@ def impl_moments(job):
     return {"out": out}
 
 
+def impl_offset(job):
+    """A grid that starts LATER than the initial time 0 (consequence of DelaySsa.tla with the queue clock at the initial time): a
+    reaction A -> (fixed delay d) B whose rate is so large that all N molecules fire within the first 1e-4 time units.  Whatever the
+    random numbers, every delivery is due before d + dt/2 + 1e-4; on a grid whose first point t0 >= d + dt lies on the queue's
+    lattice, the first reported row already holds all N products, A is 0 from the first row on, and nothing is pending at the end."""
+    import numpy as np
+    from bioscrape.types import Model
+    from bioscrape.simulator import py_simulate_model, ModelCSimInterface, DelaySSASimulator, ArrayDelayQueue
+    import bioscrape.random as brandom
+    out = []
+    for case in job["cases"]:
+        N, d, dt, k0, nt, seed, via = case["N"], case["d"], case["dt"], case["k0"], case["nt"], case["seed"], case["via"]
+        try:
+            m = Model(species=["A", "B"], reactions=[(["A"], [], "massaction", {"k": 1.0e7}, "fixed", [], ["B"], {"delay": d})],
+                      initial_condition_dict={"A": N, "B": 0})
+            tp = np.array([(k0 + i) * dt for i in range(nt)])
+            brandom.py_seed_random(seed)
+            if via == 0:
+                r = py_simulate_model(tp, Model=m, stochastic=True, delay=True, return_dataframe=False)
+            else:
+                itf = ModelCSimInterface(m)
+                itf.py_set_dt(dt)
+                r = DelaySSASimulator().py_delay_simulate(itf, ArrayDelayQueue.setup_queue(1, nt + k0, dt), tp)
+            rows = np.array(r.py_get_result(), dtype=float)
+            s2i = m.get_species2index()
+            A_, B_ = rows[:, s2i["A"]], rows[:, s2i["B"]]
+            res = {"ok": True}
+            if rows.shape[0] != nt:
+                res = {"ok": False, "what": "offset-grid:rows", "detail": "%d rows for %d time points" % (rows.shape[0], nt)}
+            elif not (np.all(A_ == 0) and np.all(B_ == N)):
+                res = {"ok": False, "what": "offset-grid:delivery", "detail": "grid starting at %g (delay %g, dt %g): A = %r, B = %r; every one of the %d firings is due before the first requested time" % (
+                    tp[0], d, dt, A_.tolist(), B_.tolist(), N)}
+        except BaseException as e:  # noqa
+            res = {"ok": False, "what": "offset-grid:exception", "detail": repr(e)[:300]}
+        out.append(res)
+    return {"out": out}
+
+
 def impl_replay_dv(job):
     """DelayVolumeSsa behaviours through DelayVolumeSSASimulator / py_simulate_model(delay=True, volume=..)."""
     import numpy as np
@@ -281,6 +319,20 @@ def run(tier):
                 mom_ok += 1
             else:
                 v.violation("delay-distribution:%s:%s" % (case["fam"], got["what"]), got["detail"], {"case": case, "got": got})
+    # ---- grids that start later than the initial time
+    ocases = [{"N": 5 + j, "d": d, "dt": dt, "k0": k0, "nt": 6, "seed": seed * 131 + j, "via": j % 2}
+              for j, (d, dt, k0) in enumerate([(0.5, 0.25, 4), (1.0, 0.5, 3), (0.25, 0.25, 2), (2.0, 1.0, 3), (0.0, 0.5, 1), (0.75, 0.25, 5)])]
+    off_ok = 0
+    ojobs = [{"cases": ch} for ch in pool.chunks(ocases, 2)]
+    for job, res in zip(ojobs, pool.run_jobs("c10", "impl_offset", ojobs)):
+        if "harness_exception" in res:
+            raise common.MachineryError("C10 offset harness failed: %s\n%s" % (res["harness_exception"], res.get("tb", "")))
+        for i, case in enumerate(job["cases"]):
+            got = {"ok": False, "what": "offset-grid:crash", "detail": "worker died: %s" % res["crash"]} if "crash" in res else res["out"][i]
+            if got["ok"]:
+                off_ok += 1
+            else:
+                v.violation(got["what"], got["detail"], {"offset_case": case, "got": got})
     # ---- the delay + volume simulator (DelayVolumeSsa.tla)
     g3 = common.run_tlc_many("DelayVolumeSsa", dvssa_cfg("dvssa_a", 2, 3, 2, 6), 8, n // 2, 180, seed + 41, allow_violation=True)
     if g3.violated:
@@ -344,7 +396,7 @@ def run(tier):
            "traces_validated_against_impl": ok + accepted + ok_dv, "delay_volume_behaviours_replayed": len(g3.records), "delay_volume_behaviours_exact": ok_dv,
            "samples": [{"prog": s.get("prog"), "dt": s.get("dt"), "x0": s.get("x0"), "steps": s.get("steps", [])[:8], "rows": s.get("rows"), "pending": s.get("pending")}],
            "behaviours_replayed": len(recs), "behaviours_exact": ok, "fire_events": nfire, "fires_by_delay_family": fam,
-           "delay_sampler_moment_cases": len(mcases), "delay_sampler_moment_cases_ok": mom_ok, "fires_queued": nq, "gamma_rejected_proposals": nrej, "behaviours_with_preloaded_queue": sum(1 for r in recs if r.get("preload")), "seeded_traces_accepted": accepted, "seeded_runs_skipped_unbounded": skipped,
+           "offset_grid_cases_ok": off_ok, "delay_sampler_moment_cases": len(mcases), "delay_sampler_moment_cases_ok": mom_ok, "fires_queued": nq, "gamma_rejected_proposals": nrej, "behaviours_with_preloaded_queue": sum(1 for r in recs if r.get("preload")), "seeded_traces_accepted": accepted, "seeded_runs_skipped_unbounded": skipped,
            "checker_cmd": g1.cmd + " ; tlc TraceSsa"}
     common.write_evidence(PROP, tier, cov, time.time() - t0, len(v.alarms) + sum(v.known_hit.values()),
                           assumptions=["A-Transforms: Box-Muller yields Normal(mean, std) and Marsaglia-Tsang yields Gamma(k, theta) (cited theorems); the code is bound to the transforms exactly",
@@ -358,6 +410,10 @@ def replay(path):
     case = json.load(open(path))["case"]
     if "rec" in case:
         res = pool.run_jobs("c10", "impl_replay_dv" if case.get("dv") else "impl_replay", [{"recs": [case["rec"]], "via": case.get("via", 0)}], nworkers=1)[0]
+        print(json.dumps(res, indent=1))
+        bad = not res["out"][0]["ok"]
+    elif "offset_case" in case:
+        res = pool.run_jobs("c10", "impl_offset", [{"cases": [case["offset_case"]]}], nworkers=1)[0]
         print(json.dumps(res, indent=1))
         bad = not res["out"][0]["ok"]
     elif "case" in case and "fam" in case.get("case", {}):
